@@ -148,6 +148,13 @@ def shard_main(shard):
                             'run_no': run_no, 'policy': pname})
             if sig not in shard.get('known_sigs', ()):
                 break
+        if key == 'wall-timeout':
+            # a thread that never came back: it may still be computing (and
+            # holding the interpreter) in this process, and every further
+            # run of this kind costs the whole wall-clock guard again.  The
+            # point is made and recorded; the shard stops here.
+            out['facts']['shard-cut-short-after-wall-timeout'] = 1
+            break
         if len(out['samples']) < 1 and nontriv:
             out['samples'].append({
                 'seed': seed, 'scenario': spec.describe(scn),
